@@ -53,7 +53,7 @@ func init() {
 		Technique:   "static analysis: must-facts dataflow over go/cfg with store sinks and single-writer rules",
 		Rules:       []string{"E1"},
 		Run: func(c *Ctx) {
-			RunE1(c, "C18", obs)
+			RunE1(c, "C18", append(append([]Ob{}, obs...), sharedObs["C18"]...))
 			RunCallers(c, "E1.logout-validation-table", "op.ValidateEndSessionRequest", []string{"op.EndSession", "op.(*LegacyServer).EndSession"}, "logout entry points")
 		},
 	})
